@@ -1687,6 +1687,8 @@ class Interp:
                     r = I.isinstance_(v, tt.info)
                 elif isinstance(tt, Builtin):
                     r = _isinstance_builtin(I, v, tt.name)
+                elif isinstance(tt, ExtAttr) and tt.path in _NP_TYPES:
+                    r = _isinstance_np(v, tt.path)
                 elif isinstance(tt, (ExtAttr, Poison)):
                     raise OutOfSubset("isinstance with external type")
                 else:
@@ -2061,6 +2063,21 @@ def _minmax(I, args, is_min):
         if I.truth(c, "minmax"):
             cur = x
     return cur
+
+
+_NP_TYPES = ("np.generic", "np.number", "np.integer", "np.floating", "np.int64", "np.float64")
+
+
+def _isinstance_np(v, path):
+    """numpy scalar types against the number tag (isfloat, isnp)."""
+    if isinstance(v, Num):
+        f, n = v.tag
+        if path in ("np.generic", "np.number"):
+            return n
+        if path in ("np.integer", "np.int64"):
+            return b_and(n, b_not(f))
+        return b_and(n, f)
+    return False
 
 
 def _isinstance_builtin(I, v, name):
